@@ -1095,3 +1095,78 @@ def eval_enqueue(ctx):
     except (Raised, Unsupported) as exc:
         return {"error": f"{type(exc).__name__}: {exc}"}, m
     return {"ret": ret, "tasks": dict(sched.tasks), "states": dict(sched.task_states), "started": started}, m
+
+
+# --------------------------------------------------------------------------- find_workflow on a symbolic directory tree
+def eval_find_workflow(ctx, spec, cwd, existing):
+    """utils.find_workflow(spec) with the invoking directory `cwd` and the set of existing files; returns (path, obj) / 'raise <kind>' / '<unsupported>'."""
+    import posixpath
+    fw = ctx.index.func("gwf.utils:find_workflow")
+
+    def P(x):
+        return PathTok(str(x))
+
+    def h_join(recv, *parts):
+        return P(posixpath.join(str(recv), *[str(p) for p in parts]))
+
+    looked = []
+    hooks = {
+        "pathlib.Path": lambda *a: P(posixpath.join(*[str(x) for x in a])) if a else P("."),
+        "pathlib.Path.cwd": lambda: P(cwd), "os.getcwd": lambda: cwd,
+        "attr:is_absolute": lambda recv: str(recv).startswith("/"),
+        "attr:joinpath": h_join,
+        "attr:exists": lambda recv: (looked.append(str(recv)) or str(recv) in existing),
+        "attr:is_file": lambda recv: (looked.append(str(recv)) or str(recv) in existing),
+        "getattr:parent": lambda o: P(posixpath.dirname(str(o))),
+        "getattr:anchor": lambda o: "/" if str(o).startswith("/") else "",
+        "getattr:parents": lambda o: [P(p) for p in _parents(str(o))],
+        "attr:resolve": lambda recv, *a, **k: recv, "attr:absolute": lambda recv: recv if str(recv).startswith("/") else P(posixpath.join(cwd, str(recv))),
+        "os.path.exists": lambda p: (looked.append(str(p)) or str(p) in existing),
+        "os.path.isabs": lambda p: str(p).startswith("/"),
+        "os.path.dirname": lambda p: posixpath.dirname(str(p)),
+    }
+    interp = PureInterp(ctx, hooks=hooks)
+    try:
+        res = interp.call(fw, (spec,))
+    except Raised as exc:
+        return f"raise {exc.kind}", looked
+    except Unsupported as exc:
+        return f"<unsupported: {exc}>", looked
+    if isinstance(res, (tuple, list)) and len(res) == 2:
+        return (str(res[0]), res[1]), looked
+    return res, looked
+
+
+def _parents(p):
+    import posixpath
+    out = []
+    while p not in ("/", ""):
+        p = posixpath.dirname(p)
+        out.append(p)
+    return out
+
+
+def find_workflow_witness(ctx):
+    rows = [
+        ("workflow file in the invoking directory", "workflow.py:gwf", "/a/b/c", {"/a/b/c/workflow.py"}, ("/a/b/c/workflow.py", "gwf")),
+        ("invoked two levels below the project", "workflow.py:gwf", "/a/b/c", {"/a/workflow.py"}, ("/a/workflow.py", "gwf")),
+        ("project at the file system root", "workflow.py:gwf", "/a/b", {"/workflow.py"}, ("/workflow.py", "gwf")),
+        ("nearest enclosing project wins", "workflow.py:gwf", "/a/b/c", {"/a/workflow.py", "/a/b/workflow.py"}, ("/a/b/workflow.py", "gwf")),
+        ("no workflow file anywhere above", "workflow.py:gwf", "/a/b/c", {"/x/workflow.py"}, "raise FileNotFoundError"),
+        ("invoked in the root directory, nothing there", "workflow.py:gwf", "/", set(), "raise FileNotFoundError"),
+        ("object name given", "wf.py:analysis", "/a/b", {"/a/wf.py"}, ("/a/wf.py", "analysis")),
+        ("no object name: default gwf", "wf.py", "/a/b", {"/a/wf.py"}, ("/a/wf.py", "gwf")),
+        ("absolute path is taken as given, whatever the invoking directory", "/p/q/wf.py:gwf", "/a/b", {"/p/q/wf.py", "/a/b/wf.py"}, ("/p/q/wf.py", "gwf")),
+        ("relative path with a directory part", "sub/wf.py:gwf", "/a/b", {"/a/sub/wf.py"}, ("/a/sub/wf.py", "gwf")),
+    ]
+    diffs, n = [], 0
+    for label, spec, cwd, existing, want in rows:
+        got, looked = eval_find_workflow(ctx, spec, cwd, existing)
+        if isinstance(got, str) and got.startswith("<unsupported: loop bound"):
+            got = "no termination (the search never stops at the root directory)"
+        if isinstance(got, str) and got.startswith("<unsupported"):
+            return n, diffs, got
+        n += 1
+        if got != want:
+            diffs.append(f"find_workflow({spec!r}) invoked in {cwd} with files {sorted(existing)} [{label}] gives {got}, expected {want}")
+    return n, diffs, None
